@@ -108,7 +108,7 @@ where
     /// after `finish`: the user's hook has received a complete valid script and its finish
     spec fn done(&self) -> bool {
         hook_frame(self.d0@, *self.d, Ok::<(), D::Error>(()))
-        && seg_post(self.d0@, *self.d, self.old, self.ubox_o(), self.new, self.ubox_n(), alg_lvl(self.deadline), fin::<D>(), true)
+        && seg_post(self.d0@, *self.d, self.old, self.ubox_o(), self.new, self.ubox_n(), alg_lvl(self.deadline), false, fin::<D>(), true)
     }
 }
 ''')
@@ -170,9 +170,9 @@ proof {
     if d0.relies() { lemma_seg_any(rel, r1, lvl, s, pre.o0@, pre.n0@, oc, nc, rs0); lemma_mono(r1, rs0, s); }
     // whatever state the user's hook is left in by the call below, if it satisfies the callee's
     // postcondition then the whole script is complete
-    assert forall|d1: D| #[trigger] seg_post(dmid, d1, pre.old, (pre.old_current..pre.old_end), pre.new, (pre.new_current..pre.new_end), lvl, fin::<D>(), true)
+    assert forall|d1: D| #[trigger] seg_post(dmid, d1, pre.old, (pre.old_current..pre.old_end), pre.new, (pre.new_current..pre.new_end), lvl, false, fin::<D>(), true)
         && err_post(dmid, d1, Ok::<(), D::Error>(()))
-        implies seg_post(d0, d1, pre.old, pre.ubox_o(), pre.new, pre.ubox_n(), lvl, fin::<D>(), true) && hook_frame(d0, d1, Ok::<(), D::Error>(())) by {
+        implies seg_post(d0, d1, pre.old, pre.ubox_o(), pre.new, pre.ubox_n(), lvl, false, fin::<D>(), true) && hook_frame(d0, d1, Ok::<(), D::Error>(())) by {
         let s2 = choose|q: Seq<Ev>| #[trigger] seg(pre.old, pre.new, lvl, q, oc, nc, pre.old_end as int, pre.new_end as int)
             && d1.trace() == dmid.trace() + q + fin::<D>() && (dmid.relies() ==> d1.rely_st() == run_rel(dmid.rely_rel(), dmid.rely_st(), q + fin::<D>()));
         lemma_seg_concat(rel, lvl, s, s2, pre.o0@, pre.n0@, oc, nc, pre.old_end as int, pre.new_end as int);
@@ -202,7 +202,7 @@ def contract(lv):
     requires diff_pre(*vstd::prelude::old(d), old, old_range, new, new_range, LVL),
     ensures
         err_post(*vstd::prelude::old(d), *final(d), res),
-        seg_post(*vstd::prelude::old(d), *final(d), old, old_range, new, new_range, LVL, fin::<D>(), res.is_ok()),
+        seg_post(*vstd::prelude::old(d), *final(d), old, old_range, new, new_range, LVL, false, fin::<D>(), res.is_ok()),
 '''.replace('LVL', lv)
 dd = o.find('pub fn diff_deadline<Old, New, D>(')
 o.lines[dd:dd] = ghost('''
